@@ -1852,6 +1852,190 @@ def witness_aliasing(ctx):
     ctx.extra['constructor_memory_sharing'] = table
 
 
+def _elem_state(e, depth=0):
+    """the observable attributes of an element object, sub-elements included"""
+    st = [type(e).__name__] + [int(getattr(e, k, -1)) for k in ('nodal_dofs', 'facet_dofs', 'edge_dofs', 'interior_dofs', 'maxdeg')]
+    dl = getattr(e, 'doflocs', None)
+    st.append(canon(np.asarray(dl)) if isinstance(dl, np.ndarray) else None)
+    if depth < 4:
+        st.append([_elem_state(x, depth + 1) for x in getattr(e, 'elems', [])])
+        st.append(_elem_state(e.elem, depth + 1) if hasattr(e, 'elem') and e.elem is not e else None)
+    return st
+
+
+def _basis_state(bs):
+    out = [int(bs.N), canon(np.asarray(bs.element_dofs))]
+    for fields in bs.basis:
+        for f in (fields if isinstance(fields, tuple) else (fields,)):
+            out.append(tuple(canon(np.asarray(a)) if a is not None else None for a in f))
+    return out
+
+
+CONDENSED_CASES = [
+    # (name, mesh spec, how to build the element; sub-elements held by the caller come back too)
+    ('ElementTriMini', 'tri', lambda sk: (sk.ElementTriMini(), [])),
+    ('ElementTriP2', 'tri', lambda sk: (sk.ElementTriP2(), [])),
+    ('ElementQuad2', 'quad', lambda sk: (sk.ElementQuad2(), [])),
+    ('ElementTetMini', 'tet', lambda sk: (sk.ElementTetMini(), [])),
+    ('ElementVector(ElementTriMini)', 'tri', lambda sk: (lambda a: (sk.ElementVector(a), [a]))(sk.ElementTriMini())),
+    ('ElementTriMini*ElementTriP1', 'tri', lambda sk: (lambda a, b: (a * b, [a, b]))(sk.ElementTriMini(), sk.ElementTriP1())),
+    ('ElementVector(ElementTriMini)*ElementTriP1', 'tri',
+     lambda sk: (lambda a, b: (sk.ElementVector(a) * b, [a, b]))(sk.ElementTriMini(), sk.ElementTriP1())),
+    ('ElementComposite(ElementQuad2,ElementQuad0)', 'quad', lambda sk: (lambda a, b: (sk.ElementComposite(a, b), [a, b]))(sk.ElementQuad2(), sk.ElementQuad0())),
+]
+
+
+def witness_condensed(ctx, only=None):
+    """Element.condensed() returns two NEW elements; the element it is called on (and, for a composite, the sub-element objects
+    the caller still holds) must be unchanged: DOF counts and doflocs of the element and of every sub-element, and a basis built
+    with the element / the sub-elements AFTER the call is bit-identical to one built with freshly made elements"""
+    import skfem
+    n = 0
+    for name, mspec, mk in CONDENSED_CASES:
+        if only is not None and name != only:
+            continue
+        m = Pool().mesh(mspec)
+        fresh, fsubs = mk(skfem)
+        ref = _basis_state(skfem.Basis(m, fresh))
+        refsubs = [_basis_state(skfem.Basis(m, x)) for x in fsubs]
+        el, subs = mk(skfem)
+        before = _elem_state(el)
+        sub_before = [_elem_state(x) for x in subs]
+        used_before = _basis_state(skfem.Basis(m, el))
+        ei, eo = el.condensed()
+        nin, nout = int(ei.interior_dofs), int(eo.nodal_dofs + eo.facet_dofs + eo.edge_dofs)
+        after = _elem_state(el)
+        sub_after = [_elem_state(x) for x in subs]
+        n += 1
+        ctx.count(('condensed', name), nontrivial=True)
+        data = {'site': 'condensed', 'element': name, 'mesh': mspec}
+        if before != after or sub_before != sub_after:
+            ctx.fail(f'operand-mutated:Element.condensed:{name}',
+                     f'{name}.condensed() changes the element it is called on: (class, nodal, facet, edge, interior, maxdeg, ...) of the element '
+                     f'{before[:6]} -> {after[:6]}; '
+                     f'sub-elements held by the caller {[x[:6] for x in sub_before]} -> {[x[:6] for x in sub_after]}', data)
+            continue
+        try:
+            later = _basis_state(skfem.Basis(m, el))
+            latersubs = [_basis_state(skfem.Basis(m, x)) for x in subs]
+        except Exception as ex:      # noqa: BLE001
+            ctx.fail(f'history-dependent:Element.condensed:{name}', f'Basis(mesh, element) after element.condensed() raises {type(ex).__name__}: {ex}', data)
+            continue
+        if later != ref or later != used_before or latersubs != refsubs or nin != before[4] or nout != before[1] + before[2] + before[3]:
+            ctx.fail(f'history-dependent:Element.condensed:{name}',
+                     f'a basis built with the element (or a sub-element object) after {name}.condensed() differs from one built with a fresh element: '
+                     f'N {later[0]} vs {ref[0]}, sub-element bases equal: {latersubs == refsubs}, interior / other DOF counts of the returned pair {nin} / {nout}', data)
+    ctx.extra['condensed_witness'] = {'elements': n}
+
+
+def _inplace_cases():
+    import skfem
+    from skfem.helpers import dot
+
+    @skfem.BilinearForm
+    def wx(u, v, w):
+        r = w.x[0]
+        r -= .5
+        return r * u * v
+
+    @skfem.LinearForm
+    def wx1(v, w):
+        r = w.x[1]
+        r *= 3.0
+        return r * v
+
+    @skfem.BilinearForm
+    def wn(u, v, w):
+        r = w.n[0]
+        r += 2.0
+        return r * u * v
+
+    @skfem.BilinearForm
+    def u0(u, v, w):
+        a = u[0]
+        a += 1.0
+        b = v[1]
+        b *= 2.0
+        return a * b + dot(u, v)
+
+    @skfem.BilinearForm
+    def us(u, v, w):
+        a = u[0]
+        a += 1.0
+        return a * v
+
+    @skfem.LinearForm
+    def prev(v, w):
+        r = w['prev'][0]
+        r -= 1.0
+        return r * v + w['prev'] * v
+
+    P1, m = skfem.ElementTriP1, (lambda: Pool().mesh('tri'))
+    return [
+        ('w.x[0]', wx, lambda: skfem.Basis(m(), P1()), None),
+        ('w.x[1]', wx1, lambda: skfem.Basis(m(), skfem.ElementTriP2()), None),
+        ('w.n[0]', wn, lambda: skfem.FacetBasis(m(), P1()), None),
+        ('w.n[0]:interior', wn, lambda: skfem.InteriorFacetBasis(m(), P1()), None),
+        ('u[0]:vector', u0, lambda: skfem.Basis(m(), skfem.ElementVector(P1())), None),
+        ('u[0]:scalar', us, lambda: skfem.Basis(m(), P1()), None),
+        ('w.field[0]', prev, lambda: skfem.Basis(m(), P1()), 'prev'),
+    ]
+
+
+def witness_inplace_integrands(ctx, only=None):
+    """an integrand that takes a component out of a DiscreteField (w.x[0], w.n[0], u[0], w['prev'][0]) and modifies it in place
+    works on its own copy (DiscreteField.__getitem__ copies): the arrays cached on the basis are unchanged, assembling the same
+    form again with the same basis gives the same bits, and so does a fresh basis.  (u.grad[0] is a plain ndarray attribute whose
+    [0] is a view by NumPy's rules - modifying that in place is the integrand's own doing and is only recorded.)"""
+    n = 0
+    for name, form, mk, field in _inplace_cases():
+        if only is not None and name != only:
+            continue
+        bs = mk()
+        kw = {}
+        fresh_kw = {}
+        if field:
+            kw[field] = bs.interpolate(np.cos(1.0 + np.arange(bs.N)))
+            fb = mk()
+            fresh_kw[field] = fb.interpolate(np.cos(1.0 + np.arange(fb.N)))
+        else:
+            fb = mk()
+        mon = Monitor()
+        mon.watch(bs, 'basis')
+        for k_, v_ in kw.items():
+            mon.watch(v_, k_)
+        n += 1
+        ctx.count(('inplace-integrand', name), nontrivial=True)
+        data = {'site': 'inplace-integrand', 'component': name}
+        try:
+            r1 = canon(form.assemble(bs, **kw))
+            ch = mon.changed()
+            r2 = canon(form.assemble(bs, **kw))
+            r3 = canon(form.assemble(fb, **fresh_kw))
+        except Exception as ex:      # noqa: BLE001 - an extracted component is the integrand's own, writable array
+            ctx.fail(f'operand-mutated:integrand-in-place:{name}',
+                     f'an integrand modifying the component it extracted ({name}) in place raises {type(ex).__name__}: {ex} '
+                     f'(the component is not the integrand\'s own copy)', data)
+            continue
+        if ch:
+            ctx.fail(f'operand-mutated:integrand-in-place:{name}',
+                     f'an integrand that extracts {name} and modifies it in place (r = ...[0]; r -= c) rewrites arrays of the basis it is assembled '
+                     f'with: {ch[:4]} ({len(ch)} arrays changed)', data)
+        elif r1 != r2 or r1 != r3:
+            ctx.fail(f'history-dependent:integrand-in-place:{name}',
+                     f'the same form assembled twice with the same basis differs ({r1 != r2}) / differs from a fresh basis ({r1 != r3})', data)
+    # recorded only: u.grad[0] is a NumPy view of the cached array
+    import skfem
+
+    @skfem.BilinearForm
+    def ug(u, v, w):
+        return u.grad[0] * v
+    bs = skfem.Basis(Pool().mesh('tri'), skfem.ElementTriP1())
+    ctx.extra['inplace_integrand_witness'] = {
+        'cases': n, 'u.grad[0] shares memory with the basis (plain ndarray indexing, by NumPy rules; not judged)':
+        bool(np.shares_memory(bs.basis[0][0].grad[0], bs.basis[0][0].grad))}
+
+
 def witness_views(ctx):
     """results handed out earlier must not change later: one ElementLinePp / ElementQuadP object, a basis b1 on quadrature Q1
     (arrays checksummed, matrix assembled), then the SAME element object evaluated at other point sets of equal size (a second
@@ -1906,6 +2090,12 @@ def search(ctx):
     # ---------------- results handed out earlier must survive later evaluations of the same element object (runs first)
     witness_views(ctx)
     witness_aliasing(ctx)
+    for w_ in (witness_condensed, witness_inplace_integrands):
+        try:
+            w_(ctx)
+        except Exception as ex:      # noqa: BLE001
+            import traceback
+            ctx.broke('harness', w_.__name__, traceback.format_exc())
     witness_solvers(ctx)
     witness_id_reuse(ctx)
     # ---------------- (a) two-step witnesses per site (always run; cheap)
@@ -2140,6 +2330,10 @@ def replay(ctx, data):
             ctx.fail(data['key'], data['what'], inp)
     elif site == 'aliasing':
         witness_aliasing(ctx)
+    elif site == 'condensed':
+        witness_condensed(ctx, only=inp['element'])
+    elif site == 'inplace-integrand':
+        witness_inplace_integrands(ctx, only=inp['component'])
     elif site == 'views':
         witness_views(ctx)
     elif site == 'solver-operands':
